@@ -17,6 +17,10 @@
 (*   member_not_consulted        an active probe never ran although the    *)
 (*                               document makes its chain's owner look for *)
 (*                               terminators (Tr.expect lists those chains)*)
+(*   chain_changed_by_parse      getRules(chain) differs before / after a  *)
+(*                               parse (Tr.pre, Tr.post, Tr.post2)         *)
+(*   second_parse_consults_differently  silent invocations of the first    *)
+(*                               and of a second parse differ in number    *)
 (***************************************************************************)
 EXTENDS Integers, Sequences, FiniteSets, TLC, Json, IOUtils
 
@@ -40,7 +44,11 @@ Check(e) ==
     ELSE "ok"
 
 Consume == /\ l' = l + 1 /\ verdict' = Check(Ev[l]) /\ seen' = seen \cup {Ev[l][1]} /\ UNCHANGED <<tid, done>>
+(* parsing is no rule-management call: the chains reported before and after it are the same, and a second parse of *)
+(* the same document consults exactly as often as the first                                                       *)
 Final == IF verdict # "ok" THEN verdict
+         ELSE IF Tr.pre # Tr.post \/ Tr.pre # Tr.post2 THEN "chain_changed_by_parse"
+         ELSE IF Tr.n1 # Tr.n2 THEN "second_parse_consults_differently"
          ELSE IF l > Len(Ev) /\ \E c \in ToSet(Tr.expect) \cap ToSet(Tr.active) : c \notin seen THEN "member_not_consulted"
          ELSE "ok"
 Finish == /\ PrintT(<<"V", tid, Final, l>>) /\ done' = TRUE /\ UNCHANGED <<tid, l, verdict, seen>>
